@@ -27,12 +27,22 @@ DESIGN_REF = "§3 C14"
 LAYOUTS = [" ", "  ", "\t", "\n", "\n\n", " \n  ", " # a comment\n", "\n# c1\n# c2 | ; (\n", " \x0c ", "\n\x0c\n", " #\n", "\r\n"]
 
 
+# what a comment may contain: anything but a line feed — a lone carriage return, tabs, form feeds, operators,
+# quotes, backslashes, `{{{`, non-ASCII text included
+COMMENT_CHARS = ["a", "b", " ", " ", "\t", "\r", "\x0c", "#", ";", "|", "(", ")", "[", "<", ">", '"', "\\", "{{{", "}}}", "...", "=",
+                 "::=", "é", "→", "'", "$", "`"]
+
+
+def random_comment(rng):
+    return " #" + "".join(rng.choice(COMMENT_CHARS) for _ in range(rng.randint(0, 8))) + rng.choice(["\n", "\r\n"])
+
+
 def lay(rng, must=True):
     if not must and rng.random() < 0.5:
         return ""
-    s = rng.choice(LAYOUTS)
+    s = rng.choice(LAYOUTS) if rng.random() < 0.8 else random_comment(rng)
     if rng.random() < 0.3:
-        s += rng.choice(LAYOUTS)
+        s += rng.choice(LAYOUTS) if rng.random() < 0.8 else random_comment(rng)
     return s
 
 
